@@ -140,9 +140,19 @@ def check_roundtrip(R: Recorder, shape: Any, value: Any, op: str, depth: int) ->
         R.sample({**case, "value": repr(value), "result": repr(out), "missing_leaves": sum(1 for _, a, _ in leaves if a is M)}, kind="roundtrip")
 
 
+class _ClaimsToBeMissing:
+    """reports Missing as its __class__ (transparent proxies / test doubles do this); it is not MISSING"""
+
+    @property  # type: ignore[misc]
+    def __class__(self) -> Any:  # noqa: ANN401
+        return type(globals()["MISSING_"])
+
+
 def battery() -> list[Any]:
+    from unittest import mock
+
     M = globals()["MISSING_"]
-    return [M, None, False, True, 0, 1, 0.0, "", "MISSING", (), [], {}, set(), frozenset(), b"", AlwaysEq(), object(), type(M), NotImplemented, Ellipsis, float("nan")]
+    return [_ClaimsToBeMissing(), mock.NonCallableMock(spec=type(M)), M, None, False, True, 0, 1, 0.0, "", "MISSING", (), [], {}, set(), frozenset(), b"", AlwaysEq(), object(), type(M), NotImplemented, Ellipsis, float("nan")]
 
 
 def scalar_laws(R: Recorder) -> None:
